@@ -752,15 +752,16 @@ def check_timecodec(pid, tier, seed, scratch, replay):
 def check_vtt(pid, tier, seed, scratch, replay):
     return codec_check(pid, tier, seed, scratch, dict(
         name="vtt", gen_module="GenVtt", gen_cfg="GenVtt.cfg", drive_cmd="vtt", trace_module="TraceVtt", trace_cfg="TraceVtt.cfg",
-        mc=[("VttMC", "MC_Vtt_H.cfg", None), ("VttMC", "MC_Vtt_C.cfg", None), ("VttMC", "MC_Vtt_P.cfg", None), ("VttMC", "MC_Vtt_N.cfg", None)],
-        gens=[(dict(GEN_FAM="H"), 2, 2, None), (dict(GEN_FAM="C"), 10, 10, None), (dict(GEN_FAM="P"), 1, 1, None), (dict(GEN_FAM="N"), 1, 1, None),
+        mc=[("VttMC", "MC_Vtt_H.cfg", None), ("VttMC", "MC_Vtt_C.cfg", None), ("VttMC", "MC_Vtt_P.cfg", None), ("VttMC", "MC_Vtt_N.cfg", None), ("VttMC", "MC_Vtt_K.cfg", None)],
+        gens=[(dict(GEN_FAM="H"), 2, 2, None), (dict(GEN_FAM="C"), 10, 10, None), (dict(GEN_FAM="P"), 1, 1, None), (dict(GEN_FAM="N"), 1, 1, None), (dict(GEN_FAM="K"), 1, 1, None),
               (dict(GEN_FAM="H", GEN_WIDE=1), 0, 4, "thorough"), (dict(GEN_FAM="C", GEN_WIDE=1), 0, 16, "thorough"), (dict(GEN_FAM="P", GEN_WIDE=1), 0, 4, "thorough")],
         nrand=(0, 0), per_jvm=2500,
-        rule=("TLC enumerates ground truths of four families - H: timestamp map x STYLE block (0-2 lines) x regions (0-2, with "
+        rule=("TLC enumerates ground truths of five families - H: timestamp map x STYLE block (0-2 lines) x regions (0-2, with "
               "lines/width/scroll) x region reference; C: one cue with id present/absent x 0-2 comment lines x 4 cue-setting subsets "
               "x voice x 1-2 runs over 7 tag stacks (depth 0-3, classes, annotation) x inline timestamp, or two lines; P: two cues "
               "(tag stack / comment / id state between cues); N: nesting - 2-3 runs over stacks in which tags of the same name are "
-              "nested (class spans inside class spans, i in b in i), runs leaving only the inner span - x every rendering (header trailing text, LF/CRLF/CR, BOM, mm:ss.ttt vs "
+              "nested (class spans inside class spans, i in b in i), runs leaving only the inner span; K: runs carrying a colour from "
+              "another format (written as a class span around the run's own tags) next to runs sharing tags with them - x every rendering (header trailing text, LF/CRLF/CR, BOM, mm:ss.ttt vs "
               "hh:mm:ss.ttt, tab vs space before settings, tags closed per run vs shared by proper nesting); each document is "
               "concretised with 4 text pools and read by ReadFromWebVTT; each truth is written by WriteToWebVTT, lexed by the "
               "harness's own lexer, decoded by the TLA+ reference decoder (which also checks that a region is defined before use) "
@@ -802,8 +803,8 @@ def check_ssa(pid, tier, seed, scratch, replay):
 def check_ttml(pid, tier, seed, scratch, replay):
     return codec_check(pid, tier, seed, scratch, dict(
         name="ttml", gen_module="GenTtml", gen_cfg="GenTtml.cfg", drive_cmd="ttml", trace_module="TraceTtml", trace_cfg="TraceTtml.cfg",
-        mc=[("TtmlMC", "MC_Ttml_T.cfg", None), ("TtmlMC", "MC_Ttml_B.cfg", None), ("TtmlMC", "MC_Ttml_S.cfg", None)],
-        gens=[(dict(GEN_FAM="T"), 5, 5, None), (dict(GEN_FAM="B"), 1, 1, None), (dict(GEN_FAM="S"), 6, 6, None),
+        mc=[("TtmlMC", "MC_Ttml_T.cfg", None), ("TtmlMC", "MC_Ttml_B.cfg", None), ("TtmlMC", "MC_Ttml_S.cfg", None), ("TtmlMC", "MC_Ttml_L.cfg", None), ("TtmlMC", "MC_Ttml_A.cfg", None)],
+        gens=[(dict(GEN_FAM="T"), 5, 5, None), (dict(GEN_FAM="B"), 1, 1, None), (dict(GEN_FAM="S"), 6, 6, None), (dict(GEN_FAM="L"), 1, 1, None), (dict(GEN_FAM="A"), 1, 1, None),
               (dict(GEN_FAM="T", GEN_WIDE=1), 0, 8, "thorough"), (dict(GEN_FAM="B", GEN_WIDE=1), 0, 2, "thorough"), (dict(GEN_FAM="S", GEN_WIDE=1), 0, 8, "thorough")],
         nrand=(0, 0), per_jvm=1500,
         rule=("TLC enumerates ground truths of three families - T: one paragraph x 6 instant pairs x frameRate {0,24,25,30} x tickRate "
@@ -1030,12 +1031,12 @@ def check_conc(pid, tier, seed, scratch, replay):
 def check_teletext(pid, tier, seed, scratch, replay):
     return codec_check(pid, tier, seed, scratch, dict(
         name="teletext", gen_module="GenTeletext", gen_cfg="GenTeletext.cfg", drive_cmd="teletext", trace_module="TraceTeletext", trace_cfg="TraceTeletext.cfg",
-        mc=[("TeletextMC", "MC_Teletext_%s.cfg" % f, None) for f in "SPEAHCI"],
+        mc=[("TeletextMC", "MC_Teletext_%s.cfg" % f, None) for f in "SPEAHCIM"],
         gens=[(dict(GEN_FAM="S"), 1, 1, None), (dict(GEN_FAM="P"), 2, 2, None), (dict(GEN_FAM="E"), 3, 3, None), (dict(GEN_FAM="A"), 1, 1, None),
-              (dict(GEN_FAM="H"), 1, 1, None), (dict(GEN_FAM="C"), 1, 1, None), (dict(GEN_FAM="I"), 1, 1, None),
+              (dict(GEN_FAM="H"), 1, 1, None), (dict(GEN_FAM="C"), 1, 1, None), (dict(GEN_FAM="I"), 1, 1, None), (dict(GEN_FAM="M"), 1, 1, None),
               (dict(GEN_FAM="I", GEN_WIDE=1), 0, 6, "thorough")],
         nrand=(0, 0), per_jvm=400,
-        rule=("TLC enumerates transport-stream descriptions of seven families - S serial mode: every order of 3 target-page instances "
+        rule=("TLC enumerates transport-stream descriptions of eight families - S serial mode: every order of 3 target-page instances "
               "(one of them an erase instance), a distractor page in the same magazine and the same page number in another magazine, "
               "x 1..3 units per PES; P parallel mode: every merge of the target magazine's packet sequence with another magazine's (120 "
               "interleavings); E: each of 11 extra unit kinds (stuffing, non-subtitle unit, X/26, X/28, M/29, 8/30, wrong framing code, "
@@ -1044,7 +1045,7 @@ def check_teletext(pid, tier, seed, scratch, replay):
               "PID and of a non-teletext PID interleaved; H: hexadecimal page numbers (1F vs 25, A0, FF); C: all 7 character-set codes x "
               "all 13 national-option positions, sets switching between instances, colour / double-height codes, text outside the box, "
               "parity errors; I: every sequence of 4 instances of the target page, each empty (erase page / repeated header) or not, x 1..3 "
-              "units per PES. Each description is encoded by the harness (own Hamming 8/4 / parity / data-unit encoder), multiplexed by "
+              "units per PES; M: the target page in every magazine 1..8 (magazine 8 travels as 0), selected by option or auto-detected. Each description is encoded by the harness (own Hamming 8/4 / parity / data-unit encoder), multiplexed by "
               "the astits muxer and read by ReadFromTeletext with the PID auto-detected and given; TLC validates the returned cues "
               "against the normative decoder Expected (spec/Teletext.tla), which is itself checked against the truth each family "
               "carries by construction (TeletextMC). Non-trivial = distinct (stream, options)."),
@@ -1140,7 +1141,7 @@ def check_session(pid, tier, seed, scratch, replay):
     rep = Report(pid, tier, seed)
     rep.rule = ("spec/Session.tla: state machine over (disk: file -> denoted cue list and frame rate, mem, fps, res) with steps Open / Apply / "
                 "Write (file API) and Cli (one run of the tool = Open;Apply;Write); TLC model-checks it (SessionMC: 2 sources x 6 output "
-                "files incl. an unsupported extension, lists of <=2 cues, all histories of <=3 (thorough 4) steps) for truncation "
+                "files incl. an unsupported extension, lists of <=2 cues, all histories of <=3 steps (thorough: 4 steps, 6*10^7 states)) for truncation "
                 "faithfulness, order, idempotent re-conversion, failed writes leaving no document, the tool touching only its output. "
                 "GenSession enumerates the histories replayed on the real code: every (source format, destination format) in 7x6 x every "
                 "operation sequence of length <=1 over 11 parametrised operations x both entry points x GEN_ND documents; every letter-case "
@@ -1177,7 +1178,7 @@ def check_session(pid, tier, seed, scratch, replay):
 
     with cf.ThreadPoolExecutor(max_workers=vlib.NCPU) as ex:
         c = "MC_Session_T.cfg" if thorough else "MC_Session.cfg"
-        mc = ex.submit(lambda: require_ok(tlc(scratch, "SessionMC", c, workers=6, timeout=3000, heap="6g"), c))
+        mc = ex.submit(lambda: require_ok(tlc(scratch, "SessionMC", c, workers=8 if thorough else 6, timeout=3000, heap="8g"), c))
         traces = [f.result() for f in [ex.submit(run_set, i) for i in range(len(sets))]]
         vals = validate(ex, scratch, traces, "TraceSession", "TraceSession.cfg", per_jvm=1500)
         rep.add_mc(c, mc.result())
